@@ -563,6 +563,7 @@ func (d *dataCloser) Close() error {
 	d.c.conn.SetDeadline(time.Now().Add(d.c.SubmissionTimeout))
 	defer d.c.conn.SetDeadline(time.Time{})
 
+	var lmtpErr error
 	expectedResponses := len(d.c.rcpts)
 	if d.c.lmtp {
 		for expectedResponses > 0 {
@@ -571,6 +572,9 @@ func (d *dataCloser) Close() error {
 				if smtpErr, ok := err.(*SMTPError); ok {
 					if d.statusCb != nil {
 						d.statusCb(rcpt, smtpErr)
+					} else if lmtpErr == nil {
+						// Without a callback, report the first refusal.
+						lmtpErr = smtpErr
 					}
 				} else {
 					return err
@@ -587,7 +591,7 @@ func (d *dataCloser) Close() error {
 		}
 	}
 
-	return nil
+	return lmtpErr
 }
 
 // Data issues a DATA command to the server and returns a writer that
